@@ -14,6 +14,7 @@ import vloop
 logging.getLogger("pyatv").setLevel(logging.CRITICAL)
 
 FPP = 352
+AUDIO_KEY = bytes(range(32))       # fixed shared secret for the AirPlay v2 audio cipher
 SEQMOD = 1 << 16
 ADDR = ("10.0.0.1", 6001)
 EXN = {"ValueError": "ValueError", "error": "StructError", "IndexError": "IndexError",
@@ -43,6 +44,8 @@ def default_case(**kw):
         "close_at": None,      # audio transport reports is_closing() once this many datagrams were sent
         "stop_after_lap": None,  # stop() is called during this lap (0-based)
         "requests": [],        # [at_read_call or None (= after the stream ended), hex datagram]
+        "proto": "v1",         # protocol object: "v1" AirPlayV1, "v2" AirPlayV2 without audio cipher, "v2cipher"
+                               # AirPlayV2 with _cipher = Chacha20Cipher8byteNonce(key, key) as setup_audio_stream does
         "order": "library",    # "library": StreamClient constructed around a default context, receiver properties
                                # applied afterwards by the real code; "preset": format set before construction
         "boundary": False,     # True: probe of a limit outside the property's domain (model tie only, no oracle)
@@ -127,6 +130,27 @@ async def drive(case, prepared=None):
     from pyatv.protocols.raop.audio_source import AudioSource, FileSource
     from pyatv.protocols.raop.protocols import StreamContext
     from pyatv.protocols.raop.protocols.airplayv1 import AirPlayV1
+    from pyatv.protocols.raop.protocols.airplayv2 import AirPlayV2
+    from pyatv.support.chacha20 import Chacha20Cipher8byteNonce
+
+    cipher_calls = []
+
+    class RecCipher(Chacha20Cipher8byteNonce):
+        """The real cipher; records what it was asked to encrypt and what it answered."""
+
+        def encrypt(self, data, nonce=None, aad=None):
+            used = self.out_nonce if nonce is None else nonce
+            out = super().encrypt(data, nonce=nonce, aad=aad)
+            cipher_calls.append((bytes(used), bytes(aad or b""), bytes(data), bytes(out)))
+            return out
+
+    def make_proto(ctx_, rtsp_):
+        if case.get("proto", "v1") == "v1":
+            return AirPlayV1(ctx_, rtsp_)
+        pr = AirPlayV2(ctx_, rtsp_)
+        if case["proto"] == "v2cipher":
+            pr._cipher = RecCipher(AUDIO_KEY, AUDIO_KEY)     # as AirPlayV2.setup_audio_stream does
+        return pr
 
     loop = asyncio.get_event_loop()
     ch, ss = case["channels"], case["ssize"]
@@ -153,7 +177,7 @@ async def drive(case, prepared=None):
         # around it, only then are the receiver's properties applied through the real code path
         # (initialize() -> _update_output_properties), and send_audio() resets the context before streaming.
         ctx = StreamContext()
-        proto = AirPlayV1(ctx, rtsp)
+        proto = make_proto(ctx, rtsp)
         client = sc.StreamClient(rtsp, ctx, proto, None)
         client._update_output_properties(props)
         ctx.reset()
@@ -163,7 +187,7 @@ async def drive(case, prepared=None):
         ctx.sample_rate = case["sample_rate"]
         ctx.channels = ch
         ctx.bytes_per_channel = ss
-        proto = AirPlayV1(ctx, rtsp)
+        proto = make_proto(ctx, rtsp)
         client = sc.StreamClient(rtsp, ctx, proto, None)
     assert (ctx.sample_rate, ctx.channels, ctx.bytes_per_channel) == (case["sample_rate"], ch, ss)
     # what reset() draws from randrange()/the wall clock, and the latency under test
@@ -253,6 +277,7 @@ async def drive(case, prepared=None):
         "src": src_bytes,
         "fs": fs,
         "limit": sc.PACKET_BACKLOG_SIZE,
+        "calls": cipher_calls,
     }
 
 
@@ -289,11 +314,28 @@ def oracle(case, ob):
                                                     if case.get("via_file") else "")))
         else:
             errs.append(("C16:stream:raised-" + exn, "streaming raised " + exn))
+    # what the receiver gets out of each datagram: for AirPlay v2 with the audio cipher the receiver decrypts
+    # header[4:12]-authenticated ChaCha20-Poly1305 with the 8 nonce bytes at the end (independent implementation)
+    cipher = case.get("proto") == "v2cipher"
+    wire_len = 12 + ps + (24 if cipher else 0)
+    payloads = []
+    if cipher:
+        from cryptography.hazmat.primitives.ciphers.aead import ChaCha20Poly1305
+        aead = ChaCha20Poly1305(AUDIO_KEY)
     # every datagram: header constants, consecutive sequence numbers, timestamps, marker
     for i, d in enumerate(sent):
-        if len(d) != 12 + ps:
-            errs.append(("C16:packet:size", "datagram %d has %d payload bytes instead of %d" % (i, len(d) - 12, ps)))
+        if len(d) != wire_len:
+            errs.append(("C16:packet:size", "datagram %d has %d bytes instead of %d" % (i, len(d), wire_len)))
             break
+        if cipher:
+            try:
+                payloads.append(aead.decrypt(b"\x00" * 4 + d[-8:], d[12:-8], d[4:12]))
+            except Exception:
+                errs.append(("C16:packet:undecryptable", "datagram %d cannot be decrypted by the receiver (nonce %s)" % (
+                    i, d[-8:].hex())))
+                break
+        else:
+            payloads.append(d[12:])
         b0, b1, seq, ts, ssrc = struct.unpack(">BBHII", d[:12])
         if b0 != 0x80 or ssrc != case["ssrc"]:
             errs.append(("C16:packet:header", "datagram %d: first byte %#x ssrc %#x" % (i, b0, ssrc)))
@@ -309,8 +351,8 @@ def oracle(case, ob):
                 errs.append(("C16:timestamp:step", "timestamp step %d -> %d between datagrams %d and %d" % (
                     pts, ts, i - 1, i)))
     # payload: the source's frames exactly once and in order, zero padded, then silence
-    if not any(k == "C16:packet:size" for k, _ in errs):
-        stream = b"".join(d[12:] for d in sent)
+    if not any(k in ("C16:packet:size", "C16:packet:undecryptable") for k, _ in errs):
+        stream = b"".join(payloads)
         npad = -(-case["latency"] // FPP)
         if len(src) % 2 == 0:
             full = swap16(src) + bytes((-len(src)) % ps) + bytes(ps * npad)
@@ -361,12 +403,28 @@ def oracle(case, ob):
             got = [struct.unpack(">H", x[2:4])[0] for x in r["replies"] if len(x) >= 4]
             wseq = [struct.unpack(">H", x[2:4])[0] for x in want]
             wraps = first + count > SEQMOD
+            if got == wseq and not r["raised"] and r["addr_ok"]:
+                bad = [g for g, x, w in zip(got, r["replies"], want) if x != w]
+                errs.append(("C16:retransmit:not-byte-identical",
+                             "retransmit request (first=%d,count=%d) after %d datagrams: the replies for sequence numbers "
+                             "%s differ from the datagrams originally sent (%s)" % (
+                                 first, count, r["after"], bad[:8],
+                                 "; ".join("seq %d: sent %d bytes, retransmitted %d" % (g, len(w) - 4, len(x) - 4)
+                                           for g, x, w in list(zip(got, r["replies"], want))[:1] if x != w))))
+                continue
             key = "C16:retransmit:wrap" if (wraps and got == wseq[:len(got)] and len(got) < len(wseq)) \
                 else "C16:retransmit:not-exact"
             errs.append((key, "retransmit request (first=%d,count=%d) after %d datagrams: got sequence numbers %s%s, "
                               "expected %s byte-identical to what was sent" % (
                                   first, count, r["after"], got[:12], " raised " + r["raised"] if r["raised"] else "",
                                   wseq[:12])))
+    # what is kept for retransmission must be what was sent (the packet send_audio_packet returns is stored)
+    nk = len(ob["keys"])
+    if ob["values"] != sent[len(sent) - nk:] and len(sent) >= nk:
+        j = next(i for i, (a, b) in enumerate(zip(ob["values"], sent[len(sent) - nk:])) if a != b)
+        errs.append(("C16:retransmit:not-byte-identical",
+                     "backlog entry for sequence %d (%d bytes) differs from the datagram sent with that number (%d bytes)"
+                     % (ob["keys"][j], len(ob["values"][j]), len(sent[len(sent) - nk + j]))))
     seen = set()
     out = []
     for k, t in errs:
@@ -398,14 +456,40 @@ def describe(case, ob):
     ok = True
     dg = []
     pos = 0
-    for d in ob["sent"]:
-        hdr, pay = d[:12], d[12:]
+    cipher = case.get("proto") == "v2cipher"
+    calls = ob["calls"]
+    for i, d in enumerate(ob["sent"]):
+        hdr = d[:12]
         ln = min(ps, max(0, len(src) - pos))
-        pad = len(pay) - ln
-        if ln % 2 or pad < 0 or pay != swap16(src[pos:pos + ln]) + bytes(pad):
+        if ln % 2:
             ok = False
-            ln, pad = 0, 0
-        dg.append("{| o_hdr := %s; o_len := %s; o_pad := %s |}" % (common.cbytes(hdr), common.cN(ln), common.cN(pad)))
+            ln = 0
+        if cipher:
+            # the bytes on the wire are header ++ E(nonce, aad, plaintext) ++ nonce[-8:] for the i-th call of the
+            # real cipher; plaintext and aad go to Coq, the ciphertext is checked here
+            tail = d[-8:]
+            good = i < len(calls) and d == hdr + calls[i][3] + calls[i][0][-8:] and len(calls[i][0]) == 12 \
+                and calls[i][0][:4] == bytes(4)
+            if good:
+                nonce, aad, pt, _ = calls[i]
+                ctr = int.from_bytes(nonce[4:], "little")
+                pad = len(pt) - ln
+                if pad < 0 or pt != swap16(src[pos:pos + ln]) + bytes(pad):
+                    good = False
+            if not good:
+                ok = False
+                ctr, aad, ln, pad = 0, b"", 0, 0
+            enc = "(Some (%s, %s))" % (common.cN(ctr), common.cbytes(aad))
+        else:
+            pay = d[12:]
+            tail = b""
+            pad = len(pay) - ln
+            if pad < 0 or pay != swap16(src[pos:pos + ln]) + bytes(pad):
+                ok = False
+                ln, pad = 0, 0
+            enc = "None"
+        dg.append("{| o_hdr := %s; o_len := %s; o_pad := %s; o_enc := %s; o_tail := %s |}" % (
+            common.cbytes(hdr), common.cN(ln), common.cN(pad), enc, common.cbytes(tail)))
         pos += ln
     # backlog values must be the most recent datagrams, byte-identical
     nk = len(ob["keys"])
@@ -437,9 +521,10 @@ def describe(case, ob):
         oc = "OReturned"
     laps = ["{| l_stop := %s; l_behind := %s |}" % (common.cbool(s), common.cZ(b)) for s, b in lap_terms(case, ob)]
     f = ob["final"]
-    term = ("{| k_fs := %s; k_latency := %s; k_start := %s; k_ssrc := %s; k_lim := %s; k_close := %s;\n"
+    term = ("{| k_proto := %s; k_fs := %s; k_latency := %s; k_start := %s; k_ssrc := %s; k_lim := %s; k_close := %s;\n"
             "   k_seq0 := %s; k_srclen := %s; k_pa := %s; k_pb := %s;\n   k_sched := %s;\n   k_outcome := %s;\n"
             "   k_dgrams := %s;\n   k_final := (%s, %s, %s, %s); k_keys := %s; k_blfrom := %s;\n   k_reqs := %s |}" % (
+                {"v1": "V1", "v2": "V2plain", "v2cipher": "V2cipher"}[case.get("proto", "v1")],
                 common.cN(fs), common.cN(case["latency"]), common.cN(case["start_ts"]), common.cN(case["ssrc"]),
                 common.cN(ob["limit"]), common.copt(case["close_at"], common.cN),
                 common.cN(case["seq0"]), common.cN(len(src)), common.cN(case["pa"]), common.cN(case["pb"]),
@@ -557,16 +642,18 @@ def gen_cases(ctx):
         reqs.append([None, retransmit_req(seq0, 2, typ=0x55)])
         reqs.append([None, (struct.pack(">BBHHH", 0x80, 0xD5, 1, seq0, 2) + b"\x00").hex()])
         reqs.append([None, "80"])
-        cases.append(("retransmit", default_case(nframes=nfr, latency=lat, seq0=seq0, requests=reqs,
-                                                 channels=1, ssize=2, pa=rng.randrange(1, 250),
-                                                 pb=rng.randrange(251))))
+        pa, pb = rng.randrange(1, 250), rng.randrange(251)
+        for proto in ("v1", "v2", "v2cipher"):
+            cases.append(("retransmit", default_case(nframes=nfr, latency=lat, seq0=seq0, requests=reqs, proto=proto,
+                                                     channels=1, ssize=2, pa=pa, pb=pb)))
     # F. the real latency (22050 + sample rate)
     for sr, nfr in ([(44100, 880)] if not ctx.thorough else [(44100, 880), (8000, 100), (48000, 353), (44100, 0)]):
         seq0 = SEQMOD - 100
         reqs = [[None, retransmit_req(seq0 - 5, 400)], [None, retransmit_req(SEQMOD - 2, 4)],
                 [50, retransmit_req(SEQMOD - 60, 200)], [None, retransmit_req(0, 65535)]]
-        cases.append(("real-latency", default_case(sample_rate=sr, latency=22050 + sr, nframes=nfr, seq0=seq0,
-                                                   requests=reqs)))
+        for proto in ("v2cipher", "v1") if sr == 44100 and nfr == 880 else (rng.choice(["v2", "v2cipher"]),):
+            cases.append(("real-latency", default_case(sample_rate=sr, latency=22050 + sr, nframes=nfr, seq0=seq0,
+                                                       requests=reqs, proto=proto)))
     # I. boundary probe (outside the domain: latency is 22050 + sample rate in pyatv): the RTP time reaches 2^32
     #    and the header encoder raises struct.error - ties the model's StructError branch (theorem C16_timestamp_limit)
     for k in (1, 2):
@@ -582,8 +669,12 @@ def gen_cases(ctx):
                 [None, retransmit_req((seq0 + 990) % SEQMOD, 30)],
                 [None, retransmit_req(seq0, 1100)],
                 [600, retransmit_req(SEQMOD - 10, 300)]]
-        cases.append(("long", default_case(channels=1, ssize=2, nframes=nfr, latency=704, seq0=seq0,
-                                           requests=reqs, delays={"3": 0.05, "700": 0.2})))
+        for proto in (("v1", "v2cipher") if extra == 7 else ("v2",)):
+            cases.append(("long", default_case(channels=1, ssize=2, nframes=nfr, latency=704, seq0=seq0, proto=proto,
+                                               requests=reqs, delays={"3": 0.05, "700": 0.2})))
+    for kind, c in cases:
+        if kind in ("rem", "boundary", "wrap", "late", "early", "preset-order", "ts-limit"):
+            c["proto"] = rng.choice(["v1", "v1", "v2", "v2cipher"])
     return cases
 
 
@@ -649,7 +740,7 @@ def run(ctx):
     ctx.build_property()
     if ctx.thorough:
         ctx.coqchk()
-    ctx.rule = ("real StreamClient._stream_data/_send_packet + AirPlayV1.send_audio_packet + FileSource + PacketFifo + "
+    ctx.rule = ("real StreamClient._stream_data/_send_packet + AirPlayV1/AirPlayV2 (without and with the real ChaCha20 audio cipher) send_audio_packet + FileSource + PacketFifo + "
                 "ControlClient under virtual time with fake transports; cases: every remainder of the source length "
                 "modulo the packet size (0..351 frames), boundary lengths x (channels,sample size) in {1,2}x{1,2,4}, "
                 "start sequence numbers around the 2^16 wrap, late-source schedules (compensation packets), closing "
@@ -675,6 +766,7 @@ def run(ctx):
         ctx.traces += 1
         ctx.count(kind.split(":")[0])
         ctx.count("fmt:%dx%d" % (case["channels"], case["ssize"]))
+        ctx.count("proto:" + case.get("proto", "v1"))
         ctx.count("outcome:" + ob["outcome"])
         ctx.count("compensated" if any(b >= FPP for b in ob["behind"]) else "on-time")
         errs = oracle(case, ob)
